@@ -18,7 +18,8 @@ from lib.common import *
 
 LEVEL = 'proof'
 THEOREMS = ['C10_pairs_grouped_as_C', 'C10_eq_rel_precedence_fixed', 'C10_unary_binds_tightest', 'C10_truth_values',
-            'C10_not_is_logical', 'C10_division', 'C10_ternary_correct', 'C10_ternary_nested_refuted']
+            'C10_not_is_logical', 'C10_division', 'C10_ternary_correct', 'C10_ternary_nested_refuted',
+            'C10_calc_groups_as_C', 'C10_redundant_parens', 'C10_calc_groups_as_C_np', 'C10_div_zero_general', 'C10_calc_groups_as_C_example']
 
 BINOPS = ['*', '/', '+', '-', '<<', '>>', '<', '<=', '>', '>=', '==', '!=', '&', '^', '|', '&&', '||']
 C_PREC = {'*': 12, '/': 12, '+': 11, '-': 11, '<<': 10, '>>': 10, '<': 9, '<=': 9, '>': 9, '>=': 9, '==': 8, '!=': 8,
